@@ -280,6 +280,73 @@ def thresholds(ctx, col):
         and norm_src(wh[1].test) == "not (ns[-1].is_furcation() or ns[-1].is_tip())"
     col.judge(len(wh) == 2, ok, R, d.qualname, d.loc(), "Node.branch: up to the nearest furcation or the root, down to the nearest furcation or tip",
               "", f"loop conditions: {[norm_src(w.test) for w in wh]}", stmt="node-branch")
+    node_branch_by_value(ctx, col, d)
+
+
+def node_branch_by_value(ctx, col, d):
+    """R-BRANCHVAL: Node.branch folded over every rooted tree of up to six nodes and every start node (sa/objfold.py: the walk is interpreted over abstract node handles
+    whose parent / children / is_furcation / is_tip answers come from the witness topology).  Definition: the branch through v runs from the nearest ancestor-or-self of v
+    that is a furcation or the root down to v itself when v is a furcation, else on to the nearest descendant-or-self along the single-child chain that is a furcation or
+    a tip (so the branch of a furcation node is that node alone -- the convention the bifurcation torques of L-Measure are built on)."""
+    from ..objfold import Budget, Built, NodeV, ObjEval, Unsupported, small_trees
+    col.rule("R-BRANCHVAL", "Node.branch folded exactly over all 154 rooted trees of up to six nodes and every start node (873 walks): the ids handed to the Branch are the path from the "
+             "nearest ancestor-or-self that is a furcation or the root to the nearest descendant-or-self (single-child chain) that is a furcation or a tip; the branch of a furcation "
+             "node is the node alone -- whatever loops / breaks / reversals the walk is written with", floor=1, exhaustive=True)
+    repo = ctx.repo
+    cls = d.cls if hasattr(d, "cls") else None
+    methods = {}
+    try:
+        node_cls = repo.get_class(f"{TREE}.Node")
+        for m_ in node_cls.methods.values():
+            if not m_.is_lambda and m_.name not in ("branch", "parent", "children", "is_furcation", "is_tip", "is_root", "is_bifurcation"):
+                methods[m_.name] = m_.node
+    except Exception:  # noqa: BLE001
+        pass
+
+    def want(pid, v):
+        kids = {i: [j for j in range(len(pid)) if pid[j] == i] for i in range(len(pid))}
+        top = v
+        while len(kids[top]) < 2 and pid[top] != -1:
+            top = pid[top]
+        bottom = v
+        while len(kids[bottom]) == 1:
+            bottom = kids[bottom][0]
+        path = [bottom]
+        while path[-1] != top:
+            path.append(pid[path[-1]])
+        return path[::-1]
+    bad = und = None
+    n_w = 0
+    for pid in small_trees(6):
+        for v in range(len(pid)):
+            try:
+                got = ObjEval(pid, methods).run(d.node, NodeV(v))
+            except (Unsupported, Budget) as x:
+                und = f"{type(x).__name__}: {x} (tree {pid}, node {v})"
+                break
+            except Exception as x:  # noqa: BLE001
+                und = f"{type(x).__name__}: {x}"
+                break
+            n_w += 1
+            if not isinstance(got, Built):
+                und = f"the walk does not return a Branch built from a list of ids (tree {pid}, node {v})"
+                break
+            if got.ids != want(pid, v):
+                bad = (pid, v, got.ids, want(pid, v))
+                break
+        if bad or und:
+            break
+    what = "Node.branch returns the branch through the node (nearest furcation / root above, nearest furcation / tip below)"
+    if bad is not None:
+        pid, v, got, exp = bad
+        col.bad("R-BRANCHVAL", d.qualname, d.loc(), what,
+                f"in the tree with parents {pid}, node {v}.branch() is {got}; by the definition it is {exp}" +
+                (" (the start node itself is a furcation: its branch is the node alone; L-Measure takes the previous bifurcation from `parent.branch().origin_id()[0]` and now skips "
+                 "a parent that is itself a bifurcation)" if len(exp) == 1 else ""), stmt="branchval", definite=True)
+    elif und is not None:
+        col.unresolved("R-BRANCHVAL", d.qualname, d.loc(), what, f"cannot fold the walk: {und}", stmt="branchval")
+    else:
+        col.ok("R-BRANCHVAL", d.qualname, d.loc(), what, f"{n_w} walks folded", stmt="branchval")
 
 
 def get_paths(ctx, col):
